@@ -45,7 +45,7 @@ Descr == CASE E.ev = "dwt" -> ToString([w |-> E.w, h |-> E.h, levels |-> E.level
            [] E.ev = "t1" -> ToString([w |-> E.w, h |-> E.h, orient |-> E.orient, style |-> E.style, bits |-> E.bits]) \o " err=" \o E.err
            [] OTHER -> ""
 
-Init == l = 1 /\ nacc = 0 /\ ninfo = 0 /\ t1c = [agree |-> 0, vsc |-> 0, other |-> 0]
+Init == l = 1 /\ nacc = 0 /\ ninfo = 0 /\ t1c = [agree |-> 0, vsc |-> 0, other |-> 0, ragree |-> 0, rlazy |-> 0, rvsc |-> 0, rother |-> 0]
 Step ==
   /\ l <= Len(Tr) /\ l' = l + 1
   /\ IF E.ev = "t1" /\ E.ref /\ E.passes > 0
@@ -53,6 +53,15 @@ Step ==
           /\ t1c' = [t1c EXCEPT !.agree = @ + (IF c THEN 1 ELSE 0), !.vsc = @ + (IF ~c /\ HasStyle(E.style, 8) THEN 1 ELSE 0),
                                  !.other = @ + (IF ~c /\ ~HasStyle(E.style, 8) THEN 1 ELSE 0)]
           /\ IF c \/ HasStyle(E.style, 8) THEN TRUE ELSE PrintT("@@INFO|T1 bytes not decodable by the Annex D reference decoder: " \o Descr)
+     ELSE IF E.ev = "t1rev"
+     THEN \* a block coded by the reference encoder (T1Gen) and decoded by the library: informational
+          LET ok == E.err = "" /\ E.out = E.src
+              lazy == HasStyle(E.style, 1) /\ ~HasStyle(E.style, 4)  vsc == HasStyle(E.style, 8) IN
+          /\ t1c' = [t1c EXCEPT !.ragree = @ + (IF ok THEN 1 ELSE 0), !.rlazy = @ + (IF ~ok /\ lazy THEN 1 ELSE 0),
+                                 !.rvsc = @ + (IF ~ok /\ ~lazy /\ vsc THEN 1 ELSE 0), !.rother = @ + (IF ~ok /\ ~lazy /\ ~vsc THEN 1 ELSE 0)]
+          /\ IF ok \/ lazy \/ vsc THEN TRUE
+             ELSE PrintT("@@INFO|library block decoder does not recover a block coded by the Annex D reference encoder: " \o
+                         ToString([w |-> E.w, h |-> E.h, orient |-> E.orient, style |-> E.style, planes |-> E.planes]) \o " err=" \o E.err)
      ELSE UNCHANGED t1c
   /\ IF E.ev \notin {"dwt", "rct", "t1"} THEN UNCHANGED <<nacc, ninfo>>
      ELSE LET r == Reason IN
@@ -63,7 +72,8 @@ Step ==
                   ELSE UNCHANGED ninfo
           ELSE PrintT("@@REJECT|" \o ToString(E.scn) \o "|" \o ToString(E.k) \o "|" \o Key \o r \o Disc \o "|" \o Descr) /\ UNCHANGED <<nacc, ninfo>>
 Finish == /\ l = Len(Tr) + 1 /\ PrintT("@@ACCEPT|" \o ToString(nacc)) /\ PrintT("@@DONE|" \o ToString(Len(Tr)))
-          /\ PrintT("@@INFO|t1ref agree=" \o ToString(t1c.agree) \o " vsc=" \o ToString(t1c.vsc) \o " other=" \o ToString(t1c.other))
+          /\ PrintT("@@INFO|t1ref agree=" \o ToString(t1c.agree) \o " vsc=" \o ToString(t1c.vsc) \o " other=" \o ToString(t1c.other)
+                    \o " ragree=" \o ToString(t1c.ragree) \o " rlazy=" \o ToString(t1c.rlazy) \o " rvsc=" \o ToString(t1c.rvsc) \o " rother=" \o ToString(t1c.rother))
           /\ l' = l + 1 /\ UNCHANGED <<nacc, ninfo, t1c>>
 TraceSpec == Init /\ [][Step \/ Finish]_tvars
 =============================================================================
